@@ -201,7 +201,8 @@ func (t *TargetClient) mapDBAndCollectionName(db, collection string) (string, st
 		}
 		if sourceDB == db && (sourceCollection == "*" || collection == "") {
 			returnDB, _ = util.GetCollectionNameFromFull(target)
-			return false
+			// keep looking: an exact collection entry takes precedence over a whole-database entry
+			return true
 		}
 		return true
 	})
